@@ -10,3 +10,8 @@ package netmask
 //@   ensures ret0 == resp && !ret1
 //@   ensures[C17:netmask-always] has(resp.Options, 1) && resp.Options[1] == optenc(opt_mask(netmask))
 //@   ensures[C17:other-options-untouched] forall k uint8: k != 1 ==> ((has(resp.Options, k) <==> old(has(resp.Options, k))) && resp.Options[k] == old(resp.Options[k]))
+
+//@ func checkValidNetmask
+//@   requires len(netmask) >= 4
+//@   modifies nothing
+//@   ensures ret <==> ((((^u32be(netmask)) + 1) & (^u32be(netmask))) == 0)
